@@ -13,6 +13,9 @@ import Gotree.Lemmas.C15Holds
 import Gotree.Lemmas.C15Heap
 import Gotree.Lemmas.C15USplits
 import Gotree.Lemmas.C15Edges
+import Gotree.Lemmas.C15Text
+import Gotree.Lemmas.C15Refuse
+import Gotree.Lemmas.C15InsertFail
 
 namespace Gotree.C15
 open Gotree Gotree.C14
@@ -67,6 +70,19 @@ theorem clone_same_observations (t : T) :
     (clone t).d = t.d ∧ ∀ a b, (clone t).dist a b = t.dist a b := by
   rw [clone_eq]
   exact ⟨zeroPpos_splits t, zeroPpos_tipNames t, zeroPpos_nodeNames t, zeroPpos_d t, zeroPpos_dist t⟩
+
+/-- ★ "same text, including comments": for the writer model of C01 (`Newick.write`, any float codec),
+    the Newick text of the clone is the text of its source (the writer never reads a parent position) -/
+theorem clone_same_text (C : Newick.Codec) (t : T) : Newick.write C (clone t) = Newick.write C t := by
+  rw [clone_eq, write_zeroPpos]
+
+/-- … and likewise the text of an extracted subtree is the text of what hangs below the node -/
+theorem subtree_same_text (C : Newick.Codec) (t : T) (path : List Nat) (n sub : T)
+    (hn : nodeAt t path = some n) (hs : subTree t path = some sub) : Newick.write C sub = Newick.write C n := by
+  have hsub : sub = zeroPpos n := by
+    simp only [subTree, subTreeBy, hn, Option.map_some, Option.some.injEq] at hs
+    rw [← hs]; exact copyRecBy_eq table_observable_copied n
+  rw [hsub, write_zeroPpos]
 
 /-- the model's clone meets the Spec used as oracle -/
 theorem cloneOK_holds (t : T) : cloneOK t (clone t) = true := by
@@ -324,6 +340,36 @@ theorem insertIdentical_tips (t t' : T) (groups : List (List String))
   · exact hI.sub x hx
   · obtain ⟨g, hg, hxg⟩ := List.mem_flatten.mp hx
     exact (hI.zero g hg x hxg x hxg).2
+
+/-- … also when the call FAILS half-way (the insertions made before the failing group stay in the
+    tree): no path length between pre-existing tips has moved, every pre-existing tip is still there,
+    tip names are still unique -/
+theorem insertIdentical_dist_always (t t' : T) (groups : List (List String)) (r : Option String)
+    (h : insertIdentical true t groups = (t', r)) (hu : t.tipNames.Nodup) (hne : ∀ g ∈ groups, "" ∉ g) :
+    (∀ a ∈ t.tipNames, ∀ b ∈ t.tipNames, t'.dist a b = t.dist a b) ∧ (∀ a ∈ t.tipNames, a ∈ t'.tipNames) ∧
+    t'.tipNames.Nodup := by
+  have h0 : Inv t t t.tipNames groups.flatten [] :=
+    ⟨hu, fun _ => Iff.rfl, fun _ _ _ _ => rfl, fun _ ha => ha, fun _ hx => Or.inl hx, fun g hg => by cases hg⟩
+  unfold insertIdentical at h
+  split at h
+  · injection h with h1 _
+    subst h1
+    exact ⟨fun _ _ _ _ => rfl, fun _ ha => ha, hu⟩
+  · obtain ⟨_, _, hI⟩ := insertGroups_keep groups [] t t.tipNames t' r h0 hne
+      (fun g hg x hx => List.mem_flatten.mpr ⟨g, hg, hx⟩) (by simpa using h)
+    exact ⟨hI.keep, hI.sub, hI.nodup⟩
+
+/-- "one existing member each": a (first) group with no member, or with more than one member, among
+    the tips is refused, and the tree is left as it was -/
+theorem insertIdentical_refused (t : T) (g : List String) (gs : List (List String))
+    (hne : "" ∉ g) (h : existing t.tipNames g ≠ 1) :
+    (insertIdentical true t (g :: gs)).1 = t ∧ (insertIdentical true t (g :: gs)).2 ≠ none := by
+  unfold insertIdentical
+  split
+  · exact ⟨rfl, by simp⟩
+  · have := insertGroups_refuse t t.tipNames g gs hne h
+    simp only [if_true]
+    exact ⟨by rw [this.1], this.2⟩
 
 /-- the model's result meets the Spec used as oracle -/
 theorem insertOK_holds (t t' : T) (groups : List (List String))
